@@ -12,7 +12,14 @@
                    "NPU" otherwise.
    The same definitions (a) generate the test cases (Cases: per numeric constraint the points
    lo-1, lo, lo+1, hi-1, hi, hi+1 around a nominal instance, categorical values, and pairs of
-   simultaneous violations) and (b) judge the observed placements in SupportedOpsTrace. *)
+   simultaneous violations) and (b) judge the observed placements in SupportedOpsTrace.
+
+   The case record also carries the command-line options the report itself names as changing which
+   constraints apply (c.force = --force-symmetric-int-weights): an option is a dimension of the case
+   space like a stride or a data type, swept for every operator that lists the constraint and every
+   IFM type its text names, and once as a neutral option for every covered operator.  Options no bullet mentions
+   (c.nopt: optimisation strategy, CPU tensor alignment, tensor allocator, block dependency, debug database) are
+   swept on the nominal instance of every operator: Eval never reads them, so Expect cannot depend on them. *)
 EXTENDS Integers, Sequences, FiniteSets, TLC, SupportedOpsReport
 
 CONSTANT WithPairs      \* TRUE: the case set also contains pairs of simultaneous violations
@@ -27,7 +34,13 @@ Rng(s) == {s[i] : i \in 1..Len(s)}
 
 K4 == {"CONV_2D", "DEPTHWISE_CONV_2D", "MAX_POOL_2D", "AVERAGE_POOL_2D"}     \* NHWC operators with a kernel
 ELT == {"ADD", "SUB", "MUL"}
-HasW == {"CONV_2D", "DEPTHWISE_CONV_2D", "FULLY_CONNECTED"}
+HasW == {"CONV_2D", "DEPTHWISE_CONV_2D", "FULLY_CONNECTED", "TRANSPOSE_CONV"}
+UNARY == {"ABS", "EXP", "RSQRT", "LEAKY_RELU", "HARD_SWISH", "SOFTMAX", "LOGISTIC", "TANH", "RELU", "RELU6", "RELU_N1_TO_1"}
+BIN2 == {"MINIMUM", "MAXIMUM", "SQUARED_DIFFERENCE"}
+RESIZE == {"RESIZE_BILINEAR", "RESIZE_NEAREST_NEIGHBOR"}
+HasIfm2 == ELT \cup BIN2 \cup {"CONCATENATION"}
+NormAx(a, r) == IF a < 0 THEN a + r ELSE a
+Bit(m, i) == (m \div (2 ^ i)) % 2 = 1
 SignedT == {"int8", "int16", "int32", "int64"}
 UnsignedT == {"uint8"}
 
@@ -37,21 +50,30 @@ EKw(c) == (c.kw - 1) * c.dw + 1
 OH(c) == IF c.pad = "SAME" THEN (c.h + c.sh - 1) \div c.sh ELSE (c.h - EKh(c)) \div c.sh + 1
 OW(c) == IF c.pad = "SAME" THEN (c.w + c.sw - 1) \div c.sw ELSE (c.w - EKw(c)) \div c.sw + 1
 OC(c) == IF c.op = "CONV_2D" THEN c.oc ELSE IF c.op = "DEPTHWISE_CONV_2D" THEN c.c * c.mult ELSE c.c
-Ifm(c) == IF c.op \in K4 THEN <<c.b, c.h, c.w, c.c>> ELSE c.s1
-Ifm2(c) == IF c.op \in ELT THEN c.s2 ELSE <<>>
+Ifm(c) == IF c.op \in K4 \cup {"TRANSPOSE_CONV"} THEN <<c.b, c.h, c.w, c.c>> ELSE c.s1
+Ifm2(c) == IF c.op \in HasIfm2 THEN c.s2 ELSE <<>>
+\* TRANSPOSE_CONV output extent as TFLite defines it (SAME: in * stride; VALID: (in - 1) * stride + kernel), plus an
+\* optional deliberate mismatch c.odh on the height
+TcOut(i, k, st, pad) == IF pad = "SAME" THEN i * st ELSE (i - 1) * st + k
 \* MEAN: reduced axes become 1 (keep_dims) or disappear
 RECURSIVE DropAxes(_, _, _)
 DropAxes(s, A, i) == IF i > Len(s) THEN <<>>
                      ELSE IF (i - 1) \in A THEN DropAxes(s, A, i + 1) ELSE <<s[i]>> \o DropAxes(s, A, i + 1)
 MeanOut(c) == IF c.keep THEN [i \in 1..Len(c.s1) |-> IF (i - 1) \in Rng(c.axes) THEN 1 ELSE c.s1[i]]
               ELSE DropAxes(c.s1, Rng(c.axes), 1)
-Ofm(c) == IF c.op \in K4 THEN <<c.b, OH(c), OW(c), OC(c)>> ELSE IF c.op = "MEAN" THEN MeanOut(c) ELSE c.so
+Ofm(c) == IF c.op \in K4 THEN <<c.b, OH(c), OW(c), OC(c)>> ELSE IF c.op = "MEAN" THEN MeanOut(c)
+          ELSE IF c.op = "TRANSPOSE_CONV" THEN <<c.b, TcOut(c.h, c.kh, c.sh, c.pad) + c.odh, TcOut(c.w, c.kw, c.sw, c.pad), c.oc>>
+          ELSE IF c.op = "ARG_MAX" THEN (IF InR(NormAx(c.ax, Len(c.s1)), 0, Len(c.s1) - 1)
+                                         THEN DropAxes(c.s1, {NormAx(c.ax, Len(c.s1))}, 1) ELSE c.s1)
+          ELSE c.so
 Wts(c) == IF c.op = "CONV_2D" THEN <<c.oc, c.kh, c.kw, c.wic>>
+          ELSE IF c.op = "TRANSPOSE_CONV" THEN <<c.oc, c.kh, c.kw, c.c>>
           ELSE IF c.op = "DEPTHWISE_CONV_2D" THEN <<1, c.kh, c.kw, c.c * c.mult>>
           ELSE IF c.op = "FULLY_CONNECTED" THEN <<c.oc, c.wic>> ELSE <<>>
-DataTypes(c) == {c.dt, c.odt} \cup (IF c.op \in ELT THEN {c.dt2} ELSE {}) \cup (IF c.op \in HasW THEN {c.wt} ELSE {})
-Shapes(c) == {Ifm(c), Ofm(c)} \cup (IF c.op \in ELT THEN {Ifm2(c)} ELSE {}) \cup (IF c.op \in HasW THEN {Wts(c)} ELSE {})
-WElems(c) == IF c.op = "CONV_2D" THEN c.kh * c.kw * c.wic ELSE c.kh * c.kw * c.c * c.mult
+DataTypes(c) == {c.dt, c.odt} \cup (IF c.op \in HasIfm2 THEN {c.dt2} ELSE {}) \cup (IF c.op \in HasW THEN {c.wt} ELSE {})
+Shapes(c) == {Ifm(c), Ofm(c)} \cup (IF c.op \in HasIfm2 THEN {Ifm2(c)} ELSE {}) \cup (IF c.op \in HasW THEN {Wts(c)} ELSE {})
+WElems(c) == IF c.op = "CONV_2D" THEN c.kh * c.kw * c.wic ELSE IF c.op = "TRANSPOSE_CONV" THEN c.kh * c.kw * c.c
+             ELSE c.kh * c.kw * c.c * c.mult
 
 \* ---------------------------------------------------------------- constraint kinds
 BatchEval(s) == IF Len(s) = 4 THEN T3(s[1] = BatchVal)
@@ -85,7 +107,7 @@ WSum(c) ==
 MeanAxis(c) ==
     LET r == Len(c.s1)
         hwc == {c.s1[i] : i \in (r - 2)..r}
-    IN IF r = 2 THEN "T"
+    IN IF r <= 2 THEN "T"        \* the bullet states requirements for 2D (none) and for 3D / 4D tensors only
        ELSE IF r \notin {3, 4} THEN "U"
        ELSE T3(\A a \in Rng(c.axes) :
                   /\ (r = 4 /\ a = 0) => c.s1[1] = 1
@@ -98,12 +120,114 @@ MeanWidth(c) ==
     IF r \in {3, 4} THEN T3((r - 2) \notin Rng(c.axes) \/ c.s1[r - 1] <= MeanWMax)
     ELSE IF \A d \in Rng(c.s1) : d <= MeanWMax THEN "T" ELSE "U"
 
+
+\* ---------------------------------------------------------------- constraint kinds of the operators added in round 4
+\* CONCATENATION: the text gives the axis range as [0, dims); a negative axis (counted from the end) is undecided
+CcAxisOk(c) == InR(c.ax, 0, Len(c.so) - 1)
+CcAxis(c) == IF CcAxisOk(c) THEN "T" ELSE IF InR(c.ax, -Len(c.so), -1) THEN "U" ELSE "F"
+CcRanks(c) == Len(c.s1) = Len(c.so) /\ Len(c.s2) = Len(c.so)
+CcA(c) == NormAx(c.ax, Len(c.so)) + 1
+CcDims(c) == IF ~CcRanks(c) \/ ~InR(CcA(c), 1, Len(c.so)) THEN "U"
+             ELSE T3(\A i \in 1..Len(c.so) : i # CcA(c) => (c.s1[i] = c.so[i] /\ c.s2[i] = c.so[i]))
+CcSum(c) == IF ~CcRanks(c) \/ ~InR(CcA(c), 1, Len(c.so)) THEN "U" ELSE T3(c.s1[CcA(c)] + c.s2[CcA(c)] = c.so[CcA(c)])
+
+PadOShape(c) == IF Len(c.pads) # Len(c.s1) \/ Len(c.so) # Len(c.s1) THEN "U"
+                ELSE T3(\A i \in 1..Len(c.s1) : c.so[i] = c.s1[i] + c.pads[i][1] + c.pads[i][2])
+
+\* RESIZE_*: NHWC only (the text speaks of W and H)
+\* (with align_corners the scaling (out - 1) / (in - 1) of an extent of 1 is 0 / 0: the wording does not decide such a case)
+RzDims(c) ==
+    IF Len(c.s1) # 4 \/ Len(c.so) # 4 THEN "U" ELSE
+    LET ih == c.s1[2]  iw == c.s1[3]  oh == c.so[2]  ow == c.so[3] IN
+    IF (ih = 1 /\ iw = 1) \/ (ih = oh /\ iw = ow) THEN "T"
+    ELSE IF c.align /\ (ih = 1 \/ iw = 1) THEN "U"
+    ELSE T3(\/ (c.align /\ \E f \in RzAlignFactors : oh - 1 = f * (ih - 1) /\ ow - 1 = f * (iw - 1))
+            \/ (~c.align /\ \E f \in RzFactors : oh = f * ih /\ ow = f * iw))
+\* an operator whose result is its input (the generator gives both tensors the same quantisation) may be dropped
+\* altogether instead of being executed anywhere
+NoOp(c) == c.op \in RESIZE /\ c.s1 = c.so
+RzHalf(c) ==
+    IF Len(c.s1) # 4 \/ Len(c.so) # 4 THEN "U" ELSE
+    T3(~c.half \/ (c.s1[2] = 1 /\ c.s1[3] = 1) \/ (c.so[2] = RzHalfFactor * c.s1[2] /\ c.so[3] = RzHalfFactor * c.s1[3]))
+
+SpAxisOk(c) == InR(c.ax, -Len(c.s1), Len(c.s1) - 1)
+SpDiv(c) == IF ~SpAxisOk(c) THEN "U" ELSE T3(c.s1[NormAx(c.ax, Len(c.s1)) + 1] % c.n = 0)
+
+\* STRIDED_SLICE: "Slice 'end' values must be greater than 'begin' values".  eff = after masks and negative indices (what
+\* the slice really covers), raw = the values as written; the wording decides a case only when both readings agree, and
+\* says nothing about shrunk axes (whose end value TFLite ignores)
+SsB(c, i) == IF Bit(c.bmask, i - 1) THEN 0 ELSE IF c.beg[i] < 0 THEN c.beg[i] + c.s1[i] ELSE c.beg[i]
+SsE(c, i) == IF Bit(c.emask, i - 1) THEN c.s1[i] ELSE IF c.end[i] < 0 THEN c.end[i] + c.s1[i] ELSE c.end[i]
+SsRanges(c) ==
+    IF Len(c.beg) # Len(c.s1) \/ Len(c.end) # Len(c.s1) THEN "U"
+    ELSE IF \A i \in 1..Len(c.s1) : SsE(c, i) > SsB(c, i) /\ c.end[i] > c.beg[i] THEN "T"
+    ELSE IF \E i \in 1..Len(c.s1) : ~Bit(c.shrink, i - 1) /\ SsE(c, i) <= SsB(c, i) /\ c.end[i] <= c.beg[i] THEN "F"
+    ELSE "U"
+
+\* TRANSPOSE: the shape / permutation table of the report; an identity permutation and ranks the table does not
+\* mention are undecided
+TrPerm(c) ==
+    LET r == Len(c.s1)  p == c.perm  s == c.s1 IN
+    IF Len(p) # r THEN "U"
+    ELSE IF r = 2 THEN (IF p = <<1, 0>> THEN "T" ELSE "U")
+    ELSE IF r = 3 THEN (IF p = <<1, 0, 2>> \/ (p = <<0, 2, 1>> /\ s[1] = 1) \/ (p = <<2, 1, 0>> /\ s[2] = 1) THEN "T"
+                        ELSE IF p = <<0, 1, 2>> THEN "U" ELSE "F")
+    ELSE IF r = 4 THEN (IF s[1] # 1 \/ p = <<0, 1, 2, 3>> THEN "U"
+                        ELSE IF p = <<0, 2, 1, 3>> \/ (p = <<0, 1, 3, 2>> /\ s[2] = 1) \/ (p = <<0, 3, 2, 1>> /\ s[3] = 1) THEN "T"
+                        ELSE "F")
+    ELSE "U"
+
+Eval2(id, c) ==
+    CASE id = "in_s816" -> T3(c.dt \in {"int8", "int16"})
+      [] id = "in_8bit" -> T3(c.dt \in {"int8", "uint8"})
+      [] id = "in_int8" -> T3(c.dt = "int8")
+      [] id = "am_out" -> T3(c.odt \in {"int32", "int64"})
+      [] id = "am_axis" -> T3(c.ax = Len(c.s1) - 1 \/ c.ax = -1)
+      [] id = "am_depth" -> T3(c.s1[Len(c.s1)] <= ArgMaxDepth)
+      [] id = "qmatch2" -> T3(c.qmatch)
+      [] id = "sm_shapes" -> T3(c.s1 = c.so)
+      [] id = "sm_beta" -> IF c.beta = "pos" THEN "T" ELSE IF c.beta = "neg" THEN "F" ELSE "U"
+      [] id = "cc_axis" -> CcAxis(c)
+      [] id = "cc_rank" -> T3(CcRanks(c))
+      [] id = "cc_dims" -> CcDims(c)
+      [] id = "cc_sum" -> CcSum(c)
+      [] id = "pad_const" -> T3(c.pconst)
+      [] id = "pad_oshape" -> PadOShape(c)
+      [] id = "pad_shape" -> T3(Len(c.pads) \in PadRows)
+      [] id = "pad_type" -> T3(c.pdt \in PadTypes)
+      [] id = "rz_dims" -> RzDims(c)
+      [] id = "rz_size" -> T3(c.szmatch)
+      [] id = "rz_attrs" -> T3(~(c.align /\ c.half))
+      [] id = "rz_half" -> RzHalf(c)
+      [] id = "sl_const" -> T3(c.pconst)
+      [] id = "sp_axis" -> T3(SpAxisOk(c))
+      [] id = "sp_div" -> SpDiv(c)
+      [] id = "sv_inferred" -> T3(Cardinality({i \in 1..Len(c.sizes) : c.sizes[i] = -1}) <= 1)
+      [] id = "ss_const" -> T3(c.pconst)
+      [] id = "ss_ellipsis" -> T3(c.ell = 0)
+      [] id = "ss_masks" -> T3(c.newax = 0 \/ c.shrink = 0)
+      [] id = "ss_ranges" -> SsRanges(c)
+      [] id = "ss_strides" -> T3(\A i \in 1..Len(c.strd) : c.strd[i] = 1)
+      [] id = "ss_offset" -> T3(~c.offs)
+      [] id = "tr_size" -> T3(Len(c.perm) = Len(c.s1))
+      [] id = "tr_values" -> T3(c.pconst /\ \A i \in 1..Len(c.perm) : InR(c.perm[i], 0, Len(c.s1) - 1))
+      [] id = "tr_perm" -> TrPerm(c)
+      [] id = "tc_stride" -> T3(\/ (c.sw = 1 /\ c.sh = 1) \/ (c.sw = 2 /\ c.sh = 2)
+                               \/ (c.sw = 2 /\ c.sh = 1 /\ c.h = 1 /\ c.kh = 1))
+      [] id = "tc_same" -> T3(c.pad # "SAME" \/ (Ofm(c)[2] = c.h * c.sh /\ Ofm(c)[3] = c.w * c.sw))
+      [] id = "tc_valid" -> T3(c.pad # "VALID" \/ (/\ Ofm(c)[2] = c.h * c.sh + Max(c.kh - c.sh, 0)
+                                                   /\ Ofm(c)[3] = c.w * c.sw + Max(c.kw - c.sw, 0)))
+      \* kinds the generated networks always satisfy (attributes present, static shapes, finite scales,
+      \* integer strides, input counts ...): stated as an assumption of the generator
+      [] OTHER -> "T"
+
 Eval(id, c) ==
     CASE id = "types" -> T3(DataTypes(c) \subseteq TypeSet)
       [] id = "int32ops" -> T3("int32" \in DataTypes(c) => c.op \in Int32Ops)
       [] id = "dims" -> T3(\A s \in Shapes(c) : \A d \in Rng(s) : InR(d, DimLo, DimHi))
       [] id = "peraxis" -> T3(c.op \in PerAxisOps \/ c.paq = "none")
-      [] id = "batch" -> And3(BatchEval(Ifm(c)), IF c.op \in ELT THEN BatchEval(Ifm2(c)) ELSE "T")
+      [] id = "batch" -> And3(BatchEval(Ifm(c)), IF c.op \in HasIfm2 THEN BatchEval(Ifm2(c)) ELSE "T")
+      [] id = "outscalar" -> T3(Ofm(c) # <<>>)
       [] id = "faf" -> T3(c.faf = "NONE" \/ c.faf \in FafSet)
       [] id = "faftype" -> T3(c.faf = "NONE" \/ c.odt \in FafOutTypes)
       [] id = "rank" -> T3(\A s \in Shapes(c) : Len(s) <= MaxRank)
@@ -129,7 +253,8 @@ Eval(id, c) ==
       [] id = "ap_stride_pad" -> T3(c.sw >= ApSwMin /\ (c.sw > ApSwValidAbove => c.pad = "VALID"))
       [] id = "ap_filter" -> T3(InR(c.kh, ApFLo, ApFHi) /\ InR(c.kw, ApFLo, ApFHi))
       [] id = "ap_filter_same" -> T3(c.pad # "SAME" \/ (InR(c.kh, ApFLo, ApFHi) /\ InR(c.kw, ApFLo, ApFHi)))
-      [] id = "wsym" -> T3(c.dt \notin {"int8", "int16"} \/ c.wzp = 0)
+      \* the bullet itself names the option that lifts it
+      [] id = "wsym" -> T3(c.force \/ c.dt \notin {"int8", "int16"} \/ c.wzp = 0)
       [] id = "ap_vh" -> T3(c.pad # "VALID" \/ InR(c.kh, ApVHLo, ApVHHi))
       [] id = "ap_vprod" -> T3(c.pad # "VALID" \/ InR(c.kh * c.kw, ApVPLo, ApVPHi))
       [] id = "either_shape" -> T3(c.s1 = c.so \/ c.s2 = c.so)
@@ -147,9 +272,7 @@ Eval(id, c) ==
       [] id = "mean_prod" -> MeanProd(c)
       [] id = "mean_width" -> MeanWidth(c)
       [] id = "mean_depth" -> T3((Len(c.s1) - 1) \notin Rng(c.axes) \/ c.s1[Len(c.s1)] <= MeanDMax)
-      \* kinds the generated networks always satisfy (attributes present, static shapes, finite scales,
-      \* integer strides ...): stated as an assumption of the generator
-      [] OTHER -> "T"
+      [] OTHER -> Eval2(id, c)
 
 Failing(c) == IF c.op \in InTable THEN {id \in Listed[c.op] : Eval(id, c) = "F"} ELSE {"not-in-table"}
 Undecided(c) == IF c.op \in InTable THEN {id \in Listed[c.op] : Eval(id, c) = "U"} ELSE {}
@@ -162,7 +285,13 @@ Z == [op |-> "", dt |-> "int8", dt2 |-> "int8", odt |-> "int8", wt |-> "int8", b
       b |-> 1, h |-> 1, w |-> 1, c |-> 1, kh |-> 1, kw |-> 1, sh |-> 1, sw |-> 1, dh |-> 1, dw |-> 1,
       pad |-> "SAME", oc |-> 1, mult |-> 1, wic |-> 1, wconst |-> TRUE, wfill |-> "rand", brank |-> 1, bbits |-> 11,
       faf |-> "NONE", paq |-> "none", wzp |-> 0, s1 |-> <<>>, s2 |-> <<>>, so |-> <<>>, hasq |-> TRUE, qmatch |-> TRUE,
-      sconst |-> TRUE, knd |-> FALSE, axes |-> <<>>, keep |-> TRUE, axis |-> "nominal", axis2 |-> ""]
+      sconst |-> TRUE, knd |-> FALSE, axes |-> <<>>, keep |-> TRUE, axis |-> "nominal", axis2 |-> "",
+      \* round 4: command-line option named by the report; parameters of the operators added in round 4
+      force |-> FALSE, ax |-> 0, n |-> 2, perm |-> <<>>, pconst |-> TRUE, pdt |-> "int32", pads |-> <<>>, beta |-> "pos",
+      alpha |-> "small", align |-> FALSE, half |-> FALSE, szmatch |-> TRUE, sizes |-> <<>>, beg |-> <<>>, end |-> <<>>,
+      strd |-> <<>>, bmask |-> 0, emask |-> 0, ell |-> 0, newax |-> 0, shrink |-> 0, offs |-> FALSE, odh |-> 0,
+      \* a set of command-line options no bullet of the report mentions ("" = none): it must not move any operator
+      nopt |-> ""]
 
 Nom(op) ==
     CASE op = "CONV_2D" -> [Z EXCEPT !.op = op, !.h = 9, !.w = 13, !.c = 8, !.kh = 3, !.kw = 3, !.oc = 8, !.wic = 8,
@@ -177,6 +306,22 @@ Nom(op) ==
       [] op = "SQUEEZE" -> [Z EXCEPT !.op = op, !.s1 = <<1, 6, 7, 8>>, !.so = <<6, 7, 8>>]
       [] op = "EXPAND_DIMS" -> [Z EXCEPT !.op = op, !.s1 = <<1, 7, 8>>, !.so = <<1, 1, 7, 8>>]
       [] op = "MEAN" -> [Z EXCEPT !.op = op, !.s1 = <<1, 6, 7, 8>>, !.axes = <<1, 2>>]
+      [] op \in UNARY -> [Z EXCEPT !.op = op, !.s1 = <<1, 6, 7, 8>>, !.so = <<1, 6, 7, 8>>]
+      [] op \in BIN2 -> [Z EXCEPT !.op = op, !.s1 = <<1, 6, 7, 8>>, !.s2 = <<1, 6, 7, 8>>, !.so = <<1, 6, 7, 8>>]
+      [] op = "CONCATENATION" -> [Z EXCEPT !.op = op, !.s1 = <<1, 6, 7, 8>>, !.s2 = <<1, 6, 7, 4>>, !.so = <<1, 6, 7, 12>>, !.ax = 3]
+      [] op = "SPLIT" -> [Z EXCEPT !.op = op, !.s1 = <<1, 6, 7, 8>>, !.so = <<1, 6, 7, 4>>, !.ax = 3, !.n = 2]
+      [] op = "SPLIT_V" -> [Z EXCEPT !.op = op, !.s1 = <<1, 6, 7, 8>>, !.ax = 3, !.sizes = <<3, 5>>, !.so = <<1, 6, 7, 3>>]
+      [] op = "SLICE" -> [Z EXCEPT !.op = op, !.s1 = <<1, 6, 7, 8>>, !.beg = <<0, 1, 2, 0>>, !.sizes = <<1, 4, 3, 8>>,
+                                   !.so = <<1, 4, 3, 8>>]
+      [] op = "STRIDED_SLICE" -> [Z EXCEPT !.op = op, !.s1 = <<1, 6, 7, 8>>, !.beg = <<0, 1, 0, 0>>, !.end = <<1, 5, 7, 8>>,
+                                           !.strd = <<1, 1, 1, 1>>, !.so = <<1, 4, 7, 8>>]
+      [] op = "TRANSPOSE" -> [Z EXCEPT !.op = op, !.s1 = <<1, 6, 7, 8>>, !.perm = <<0, 2, 1, 3>>, !.so = <<1, 7, 6, 8>>]
+      [] op = "PAD" -> [Z EXCEPT !.op = op, !.s1 = <<1, 6, 7, 8>>, !.pads = <<<<0, 0>>, <<1, 1>>, <<2, 2>>, <<0, 0>>>>,
+                                 !.so = <<1, 8, 11, 8>>]
+      [] op \in RESIZE -> [Z EXCEPT !.op = op, !.s1 = <<1, 4, 5, 8>>, !.so = <<1, 8, 10, 8>>]
+      [] op = "TRANSPOSE_CONV" -> [Z EXCEPT !.op = op, !.h = 4, !.w = 5, !.c = 8, !.kh = 3, !.kw = 3, !.sh = 2, !.sw = 2,
+                                            !.oc = 4, !.bt = "int32"]
+      [] op = "ARG_MAX" -> [Z EXCEPT !.op = op, !.s1 = <<1, 6, 7, 8>>, !.ax = 3, !.odt = "int32"]
 
 Apply(r, u) == [f \in DOMAIN r |-> IF f \in DOMAIN u THEN u[f] ELSE r[f]]
 
@@ -197,6 +342,14 @@ GenericU(op) ==
        {[faf |-> f, axis |-> "faf"] : f \in Faf}
   \cup {[hasq |-> FALSE, axis |-> "noquant"]}
 
+\* --force-symmetric-int-weights x IFM type (the two the bullet names and one it does not) x weight zero point
+ForceU == {[dt |-> t, odt |-> t, bt |-> IF t = "int16" THEN "int64" ELSE "int32", wzp |-> z, force |-> f,
+            axis |-> IF f THEN "weights_zero_point_forced" ELSE "weights_zero_point"] :
+               t \in {"int8", "int16"}, z \in {0, 3, -2}, f \in BOOLEAN}
+      \cup {[paq |-> "weights", wzp |-> 3, force |-> f, axis |-> "per_axis_weights_zero_point"] : f \in BOOLEAN}
+NeutralOpts == {"size", "align", "alloc", "blockdep", "debugdb"}     \* meaning: NEUTRAL_OPTIONS in harness/checks/c16.py
+NeutralU == {[force |-> TRUE, axis |-> "force_option"]} \cup {[nopt |-> o, axis |-> "neutral_option"] : o \in NeutralOpts}
+
 ConvLikeU(op) ==
        {TypeUConv(t) : t \in Types}
   \cup {[b |-> v, axis |-> "batch"] : v \in {1, 2, 3}}
@@ -216,6 +369,7 @@ ConvLikeU(op) ==
   \cup {[dt |-> "int16", odt |-> "int16", bt |-> "int64", bbits |-> v, axis |-> "bias_bits"] :
             v \in {BiasBits[op] - 1, BiasBits[op], BiasBits[op] + 1}}
   \cup {[pad |-> "VALID", axis |-> "padding"]}
+  \cup ForceU
 
 ConvU ==
        ConvLikeU("CONV_2D") \cup GenericU("CONV_2D")
@@ -265,7 +419,7 @@ EltU(op) ==
         [dt |-> "uint8", dt2 |-> "uint8", odt |-> "int8", axis |-> "unsigned_to_signed"],
         [dt |-> "int32", dt2 |-> "int32", odt |-> "int32", faf |-> "RELU", axis |-> "int32_with_faf"]}
   \cup {[s1 |-> s, s2 |-> s, so |-> s, axis |-> "rank"] :
-            s \in {<<8>>, <<1, 8>>, <<1, 7, 8>>, <<1, 6, 7, 8>>, <<1, 1, 6, 7, 8>>}}
+            s \in {<<1>>, <<8>>, <<1, 8>>, <<1, 7, 8>>, <<1, 6, 7, 8>>, <<1, 1, 6, 7, 8>>}}
   \cup {[s1 |-> <<b2, 6, 7, 8>>, s2 |-> <<b2, 6, 7, 8>>, so |-> <<b2, 6, 7, 8>>, axis |-> "batch"] : b2 \in {1, 2}}
   \cup {[s2 |-> s, axis |-> "broadcast"] :
             s \in {<<1, 1, 1, 8>>, <<1, 1, 7, 8>>, <<1, 6, 1, 1>>, <<1, 1, 1, 1>>, <<1, 6, 7, 4>>, <<1, 3, 7, 8>>}}
@@ -303,7 +457,9 @@ MeanShapes == {<<<<1, 6, 7, 8>>, <<1, 2>>>>, <<<<1, 6, 7, 8>>, <<1>>>>, <<<<1, 6
                <<<<1, 1, 7, 8>>, <<3>>>>, <<<<1, 6, 1, 8>>, <<3>>>>, <<<<1, 6, 7, 1>>, <<3>>>>, <<<<1, 6, 7, 8>>, <<0>>>>,
                <<<<2, 6, 7, 8>>, <<0>>>>, <<<<1, 6, 7, 8>>, <<1, 2, 3>>>>, <<<<1, 1, 7, 8>>, <<1, 2, 3>>>>,
                <<<<6, 7, 8>>, <<2>>>>, <<<<1, 7, 8>>, <<2>>>>, <<<<6, 1, 8>>, <<2>>>>, <<<<6, 7, 1>>, <<2>>>>,
-               <<<<1, 7, 8>>, <<0, 1>>>>, <<<<1, 7, 8>>, <<1>>>>, <<<<1, 8>>, <<1>>>>, <<<<1, 8>>, <<0>>>>, <<<<8>>, <<0>>>>}
+               <<<<1, 7, 8>>, <<0, 1>>>>, <<<<1, 7, 8>>, <<1>>>>, <<<<1, 8>>, <<1>>>>, <<<<1, 8>>, <<0>>>>, <<<<8>>, <<0>>>>,
+               \* rank 1 with a leading 1, so that the batch bullet (undecided for other tensors of fewer than 4 dimensions) holds
+               <<<<1>>, <<0>>>>}
 MeanU ==
        {[hasq |-> FALSE, axis |-> "noquant"]}
   \cup {[dt |-> t, odt |-> t, hasq |-> t # "float32", axis |-> "dtype"] : t \in Types}
@@ -315,7 +471,182 @@ MeanU ==
   \cup {[s1 |-> <<1, 2, MeanWMax + 1, 2>>, axes |-> <<1>>, axis |-> "mean_width_not_reduced"]}
   \cup {[s1 |-> <<1, 1, 1, v>>, axes |-> <<3>>, axis |-> "mean_depth"] : v \in Points(1, MeanDMax)}
 
-Updates(op) ==
+
+\* ---------------------------------------------------------------- operators added in round 4
+RankShapes == {<<8>>, <<1, 8>>, <<1, 7, 8>>, <<1, 6, 7, 8>>, <<1, 1, 6, 7, 8>>}
+DtypeU == {[dt |-> t, dt2 |-> t, odt |-> t, hasq |-> t # "float32", axis |-> "dtype"] : t \in Types}
+
+UnaryU(op) ==
+       DtypeU
+  \cup {[hasq |-> FALSE, axis |-> "noquant"], [odt |-> "int16", axis |-> "out_type"]}
+  \cup {[s1 |-> s, so |-> s, axis |-> "rank"] : s \in RankShapes \cup {<<1>>}}
+  \cup {[s1 |-> <<2, 6, 7, 8>>, so |-> <<2, 6, 7, 8>>, axis |-> "batch"]}
+  \cup {[so |-> <<1, 7, 6, 8>>, axis |-> "shape_differs"]}
+  \cup {[s1 |-> <<1, 2, v, 2>>, so |-> <<1, 2, v, 2>>, axis |-> "dim_w"] : v \in DimPts}
+  \cup (IF op = "SOFTMAX" THEN {[beta |-> x, axis |-> "beta"] : x \in {"pos", "zero", "neg"}} ELSE {})
+  \cup (IF op = "LEAKY_RELU" THEN {[alpha |-> x, axis |-> "alpha"] : x \in {"small", "one", "big", "neg"}} ELSE {})
+
+BinU(op) ==
+       DtypeU
+  \cup {[hasq |-> FALSE, axis |-> "noquant"], [odt |-> "int16", axis |-> "out_type"], [qmatch |-> FALSE, axis |-> "quant_differs"]}
+  \cup {[s1 |-> s, s2 |-> s, so |-> s, axis |-> "rank"] : s \in RankShapes \cup {<<1>>}}
+  \cup {[s1 |-> <<2, 6, 7, 8>>, s2 |-> <<2, 6, 7, 8>>, so |-> <<2, 6, 7, 8>>, axis |-> "batch"]}
+  \cup {[s2 |-> s, axis |-> "broadcast"] : s \in {<<1, 1, 1, 8>>, <<1, 1, 7, 8>>, <<1, 6, 1, 1>>, <<1, 1, 1, 1>>}}
+  \cup (IF "broadcast" \in Listed[op]
+        THEN {[s2 |-> s, axis |-> "broadcast"] : s \in {<<1, 6, 7, 4>>, <<1, 3, 7, 8>>}} ELSE {})
+  \cup {[s1 |-> <<1, 1, 7, 8>>, s2 |-> <<1, 6, 1, 8>>, axis |-> "broadcast_both"]}
+  \cup {[s1 |-> <<1, 2, v, 2>>, s2 |-> <<1, 2, v, 2>>, so |-> <<1, 2, v, 2>>, axis |-> "dim_w"] : v \in DimPts}
+
+ConcatShapes == {<<<<1, 6, 7, 8>>, <<1, 6, 7, 8>>, <<2, 6, 7, 8>>, 0>>, <<<<1, 6, 7, 8>>, <<1, 2, 7, 8>>, <<1, 8, 7, 8>>, 1>>,
+                 <<<<1, 6, 7, 8>>, <<1, 6, 3, 8>>, <<1, 6, 10, 8>>, 2>>, <<<<1, 6, 7, 8>>, <<1, 6, 7, 4>>, <<1, 6, 7, 12>>, -1>>,
+                 <<<<1, 6, 7, 8>>, <<1, 6, 7, 4>>, <<1, 6, 7, 12>>, 4>>, <<<<1, 6, 7, 8>>, <<1, 6, 7, 4>>, <<1, 6, 7, 12>>, -5>>,
+                 <<<<8>>, <<4>>, <<12>>, 0>>, <<<<1, 8>>, <<1, 4>>, <<1, 12>>, 1>>, <<<<1, 7, 8>>, <<1, 7, 4>>, <<1, 7, 12>>, 2>>,
+                 <<<<1, 1, 6, 7, 8>>, <<1, 1, 6, 7, 4>>, <<1, 1, 6, 7, 12>>, 4>>,
+                 <<<<2, 6, 7, 8>>, <<2, 6, 7, 4>>, <<2, 6, 7, 12>>, 3>>}
+ConcatU ==
+       DtypeU
+  \cup {[hasq |-> FALSE, axis |-> "noquant"], [qmatch |-> FALSE, axis |-> "quant_differs"]}
+  \cup {[faf |-> f, axis |-> "faf"] : f \in Faf}
+  \cup {[s1 |-> p[1], s2 |-> p[2], so |-> p[3], ax |-> p[4], axis |-> "concat_axis"] : p \in ConcatShapes}
+  \cup {[s2 |-> <<6, 7, 4>>, axis |-> "rank_differs"], [s2 |-> <<1, 6, 5, 4>>, axis |-> "dims_differ"],
+        [so |-> <<1, 6, 7, 13>>, axis |-> "sum_differs"]}
+  \cup {[s1 |-> <<1, 2, v, 2>>, s2 |-> <<1, 2, 1, 2>>, so |-> <<1, 2, v + 1, 2>>, ax |-> 2, axis |-> "dim_w"] :
+            v \in {DimHi - 2, DimHi - 1, DimHi}}
+
+SplitOut(sh, a, k) == IF InR(a, -Len(sh), Len(sh) - 1)
+                      THEN [i \in 1..Len(sh) |-> IF i = NormAx(a, Len(sh)) + 1 THEN Max(1, sh[i] \div k) ELSE sh[i]] ELSE sh
+SplitU ==
+       DtypeU
+  \cup {[hasq |-> FALSE, axis |-> "noquant"]}
+  \cup {[s1 |-> <<2, 6, 8, 8>>, ax |-> a, so |-> SplitOut(<<2, 6, 8, 8>>, a, 2), axis |-> "split_axis"] :
+            a \in {-5, -4, -1, 0, 1, 2, 3, 4}}
+  \cup {[n |-> k, so |-> SplitOut(<<1, 6, 7, 8>>, 3, k), axis |-> "num_splits"] : k \in {1, 2, 3, 4, 8}}
+  \cup {[s1 |-> s, ax |-> Len(s) - 1, so |-> SplitOut(s, Len(s) - 1, 2), axis |-> "rank"] : s \in RankShapes}
+  \cup {[s1 |-> <<2, 6, 7, 8>>, so |-> <<2, 6, 7, 4>>, axis |-> "batch"]}
+
+SvOut(sh, a, first) == [i \in 1..Len(sh) |-> IF i = NormAx(a, Len(sh)) + 1 THEN first ELSE sh[i]]
+SplitVU ==
+       DtypeU
+  \cup {[hasq |-> FALSE, axis |-> "noquant"]}
+  \cup {[sizes |-> z[1], so |-> SvOut(<<1, 6, 7, 8>>, 3, z[2]), axis |-> "sizes"] :
+            z \in {<<<<3, 5>>, 3>>, <<<<-1, 5>>, 3>>, <<<<3, -1>>, 3>>, <<<<-1, -1>>, 4>>, <<<<8>>, 8>>, <<<<2, 2, 4>>, 2>>,
+                   <<<<2, -1, 4>>, 2>>}}
+  \cup {[s1 |-> s, ax |-> Len(s) - 1, so |-> SvOut(s, Len(s) - 1, 3), axis |-> "rank"] : s \in RankShapes}
+  \cup {[s1 |-> <<2, 6, 7, 8>>, so |-> <<2, 6, 7, 3>>, axis |-> "batch"]}
+  \cup {[ax |-> a, s1 |-> <<8, 8, 8, 8>>, so |-> SvOut(<<8, 8, 8, 8>>, a, 3), axis |-> "split_axis"] : a \in {0, 1, 2, -1}}
+
+SliceU ==
+       DtypeU
+  \cup {[hasq |-> FALSE, axis |-> "noquant"], [pconst |-> FALSE, axis |-> "params_dynamic"]}
+  \cup {[s1 |-> p[1], beg |-> p[2], sizes |-> p[3], so |-> p[4], axis |-> "rank"] :
+            p \in {<<<<8>>, <<2>>, <<4>>, <<4>>>>, <<<<1, 8>>, <<0, 2>>, <<1, 4>>, <<1, 4>>>>,
+                   <<<<1, 7, 8>>, <<0, 1, 2>>, <<1, 3, 4>>, <<1, 3, 4>>>>,
+                   <<<<1, 1, 6, 7, 8>>, <<0, 0, 1, 2, 0>>, <<1, 1, 4, 3, 8>>, <<1, 1, 4, 3, 8>>>>}}
+  \cup {[s1 |-> <<2, 6, 7, 8>>, beg |-> <<1, 1, 2, 0>>, axis |-> "batch"]}
+  \cup {[sizes |-> <<1, -1, 3, -1>>, so |-> <<1, 5, 3, 8>>, axis |-> "size_to_end"],
+        [beg |-> <<0, 0, 0, 0>>, sizes |-> <<1, 6, 7, 8>>, so |-> <<1, 6, 7, 8>>, axis |-> "whole"]}
+  \cup {[s1 |-> <<1, 2, v, 2>>, beg |-> <<0, 0, 0, 0>>, sizes |-> <<1, 2, v - 1, 2>>, so |-> <<1, 2, v - 1, 2>>, axis |-> "dim_w"] :
+            v \in {DimHi, DimHi + 1}}
+
+SsU ==
+       DtypeU
+  \cup {[hasq |-> FALSE, axis |-> "noquant"], [pconst |-> FALSE, axis |-> "params_dynamic"]}
+  \cup {[strd |-> <<1, 2, 1, 1>>, so |-> <<1, 2, 7, 8>>, axis |-> "strides"],
+        [strd |-> <<1, 1, 1, 2>>, so |-> <<1, 4, 7, 4>>, axis |-> "strides"],
+        [beg |-> <<0, 4, 0, 0>>, end |-> <<1, 0, 7, 8>>, strd |-> <<1, -1, 1, 1>>, axis |-> "strides"],
+        [ell |-> 2, axis |-> "ellipsis"], [offs |-> TRUE, axis |-> "offset"],
+        [newax |-> 1, shrink |-> 2, beg |-> <<0, 1, 0, 0>>, end |-> <<1, 2, 7, 8>>, so |-> <<1, 7, 8>>, axis |-> "both_masks"],
+        [shrink |-> 1, so |-> <<4, 7, 8>>, axis |-> "shrink"],
+        [shrink |-> 2, beg |-> <<0, 2, 0, 0>>, end |-> <<1, 3, 7, 8>>, so |-> <<1, 7, 8>>, axis |-> "shrink"],
+        [shrink |-> 2, beg |-> <<0, 2, 0, 0>>, end |-> <<1, 0, 7, 8>>, so |-> <<1, 7, 8>>, axis |-> "shrink_end_ignored"],
+        [beg |-> <<0, 3, 0, 0>>, end |-> <<1, 3, 7, 8>>, so |-> <<1, 1, 7, 8>>, axis |-> "empty_range"],
+        [beg |-> <<0, 4, 0, 0>>, end |-> <<1, 2, 7, 8>>, so |-> <<1, 1, 7, 8>>, axis |-> "empty_range"],
+        [beg |-> <<0, -5, 0, 0>>, end |-> <<1, -1, 7, 8>>, axis |-> "negative_indices"],
+        [bmask |-> 2, emask |-> 2, beg |-> <<0, 1, 0, 0>>, end |-> <<1, 5, 7, 8>>, so |-> <<1, 6, 7, 8>>, axis |-> "masks"],
+        [bmask |-> 15, emask |-> 15, beg |-> <<0, 0, 0, 0>>, end |-> <<0, 0, 0, 0>>, so |-> <<1, 6, 7, 8>>, axis |-> "masks_raw_empty"],
+        [emask |-> 4, beg |-> <<0, 1, 3, 0>>, end |-> <<1, 5, 7, 8>>, so |-> <<1, 4, 4, 8>>, axis |-> "masks"]}
+  \cup {[s1 |-> p[1], beg |-> p[2], end |-> p[3], strd |-> p[4], so |-> p[5], axis |-> "rank"] :
+            p \in {<<<<8>>, <<2>>, <<6>>, <<1>>, <<4>>>>, <<<<1, 8>>, <<0, 2>>, <<1, 6>>, <<1, 1>>, <<1, 4>>>>,
+                   <<<<1, 7, 8>>, <<0, 1, 2>>, <<1, 4, 6>>, <<1, 1, 1>>, <<1, 3, 4>>>>,
+                   <<<<1, 1, 6, 7, 8>>, <<0, 0, 1, 0, 0>>, <<1, 1, 5, 7, 8>>, <<1, 1, 1, 1, 1>>, <<1, 1, 4, 7, 8>>>>}}
+  \cup {[s1 |-> <<2, 6, 7, 8>>, beg |-> <<1, 1, 0, 0>>, end |-> <<2, 5, 7, 8>>, axis |-> "batch"]}
+
+TransposeShapes == {<<<<7, 8>>, <<1, 0>>>>, <<<<7, 8>>, <<0, 1>>>>, <<<<6, 7, 8>>, <<1, 0, 2>>>>, <<<<1, 7, 8>>, <<0, 2, 1>>>>,
+                    <<<<6, 7, 8>>, <<0, 2, 1>>>>, <<<<6, 1, 8>>, <<2, 1, 0>>>>, <<<<6, 7, 8>>, <<2, 1, 0>>>>,
+                    <<<<6, 7, 8>>, <<1, 2, 0>>>>, <<<<6, 7, 8>>, <<2, 0, 1>>>>, <<<<6, 7, 8>>, <<0, 1, 2>>>>,
+                    <<<<1, 6, 7, 8>>, <<0, 2, 1, 3>>>>, <<<<1, 1, 7, 8>>, <<0, 1, 3, 2>>>>, <<<<1, 6, 7, 8>>, <<0, 1, 3, 2>>>>,
+                    <<<<1, 6, 1, 8>>, <<0, 3, 2, 1>>>>, <<<<1, 6, 7, 8>>, <<0, 3, 2, 1>>>>, <<<<1, 6, 7, 8>>, <<0, 3, 1, 2>>>>,
+                    <<<<1, 6, 7, 8>>, <<0, 2, 3, 1>>>>, <<<<1, 6, 7, 8>>, <<3, 1, 2, 0>>>>, <<<<1, 6, 7, 8>>, <<0, 1, 2, 3>>>>,
+                    <<<<2, 6, 7, 8>>, <<0, 2, 1, 3>>>>, <<<<8>>, <<0>>>>, <<<<1, 1, 6, 7, 8>>, <<0, 1, 3, 2, 4>>>>}
+Permute(sh, p) == [i \in 1..Len(p) |-> sh[p[i] + 1]]
+TransposeU ==
+       DtypeU
+  \cup {[hasq |-> FALSE, axis |-> "noquant"], [pconst |-> FALSE, axis |-> "params_dynamic"]}
+  \cup {[s1 |-> p[1], perm |-> p[2], so |-> Permute(p[1], p[2]), axis |-> "permutation"] : p \in TransposeShapes}
+  \cup {[s1 |-> <<1, 2, v, 2>>, perm |-> <<0, 2, 1, 3>>, so |-> <<1, v, 2, 2>>, axis |-> "dim_w"] : v \in DimPts}
+
+PadCases == {<<<<1, 6, 7, 8>>, <<<<0, 0>>, <<0, 0>>, <<0, 0>>, <<0, 0>>>>>>, <<<<1, 6, 7, 8>>, <<<<0, 0>>, <<2, 0>>, <<0, 3>>, <<0, 0>>>>>>,
+             <<<<1, 6, 7, 8>>, <<<<0, 0>>, <<0, 0>>, <<0, 0>>, <<1, 2>>>>>>, <<<<1, 6, 7, 8>>, <<<<0, 0>>, <<1, 1>>, <<1, 1>>, <<1, 1>>>>>>,
+             <<<<1, 6, 7, 8>>, <<<<1, 0>>, <<0, 0>>, <<0, 0>>, <<0, 0>>>>>>,
+             <<<<1, 7, 8>>, <<<<0, 0>>, <<1, 1>>, <<0, 0>>>>>>, <<<<1, 7, 8>>, <<<<0, 0>>, <<1, 1>>, <<2, 2>>>>>>,
+             <<<<7, 8>>, <<<<1, 1>>, <<0, 0>>>>>>, <<<<8>>, <<<<1, 1>>>>>>,
+             <<<<1, 1, 6, 7, 8>>, <<<<0, 0>>, <<0, 0>>, <<1, 1>>, <<2, 2>>, <<0, 0>>>>>>,
+             <<<<2, 6, 7, 8>>, <<<<0, 0>>, <<1, 1>>, <<2, 2>>, <<0, 0>>>>>>}
+Padded(sh, pd) == [i \in 1..Len(sh) |-> sh[i] + pd[i][1] + pd[i][2]]
+PadU ==
+       DtypeU
+  \cup {[hasq |-> FALSE, axis |-> "noquant"], [pconst |-> FALSE, axis |-> "params_dynamic"]}
+  \cup {[pdt |-> t, axis |-> "pad_type"] : t \in {"int32", "int64"}}
+  \cup {[s1 |-> p[1], pads |-> p[2], so |-> Padded(p[1], p[2]), axis |-> "padding"] : p \in PadCases}
+  \cup {[so |-> <<1, 8, 12, 8>>, axis |-> "shape_differs"]}
+  \cup {[s1 |-> <<1, 2, v, 2>>, pads |-> <<<<0, 0>>, <<0, 0>>, <<1, 0>>, <<0, 0>>>>, so |-> <<1, 2, v + 1, 2>>, axis |-> "dim_w"] :
+            v \in {DimHi - 2, DimHi - 1, DimHi}}
+
+\* upscaling factors around the documented set {2, 4, 8}; align_corners: (out - 1) = f * (in - 1)
+RzPts == {1, 2, 3, 4, 5, 7, 8, 9, 16}
+RzOut(i, f, al) == IF al THEN f * (i - 1) + 1 ELSE f * i
+ResizeU(op) ==
+       DtypeU
+  \cup {[hasq |-> FALSE, axis |-> "noquant"], [szmatch |-> FALSE, axis |-> "size_differs"]}
+  \cup {[align |-> al, so |-> <<1, RzOut(4, f, al), RzOut(5, f, al), 8>>, axis |-> "scale"] : f \in RzPts, al \in BOOLEAN}
+  \cup {[align |-> al, so |-> <<1, RzOut(4, 2, al), RzOut(5, 4, al), 8>>, axis |-> "scale_unequal"] : al \in BOOLEAN}
+  \cup {[so |-> <<1, 6, 10, 8>>, axis |-> "scale_fraction"], [so |-> <<1, 2, 5, 8>>, axis |-> "scale_down"]}
+  \cup {[s1 |-> <<1, 1, 1, 8>>, so |-> <<1, 5, 7, 8>>, align |-> al, half |-> hp, axis |-> "ifm_1x1"] : al \in BOOLEAN, hp \in BOOLEAN}
+  \cup {[s1 |-> <<1, 1, 5, 8>>, so |-> <<1, 1, RzOut(5, 2, al), 8>>, align |-> al, axis |-> "ifm_h1"] : al \in BOOLEAN}
+  \cup {[half |-> TRUE, so |-> <<1, 4 * f, 5 * f, 8>>, axis |-> "half_pixel"] : f \in {1, 2, 3, 4, 8}}
+  \cup {[half |-> TRUE, align |-> TRUE, so |-> <<1, 7, 9, 8>>, axis |-> "half_and_align"]}
+  \cup {[s1 |-> <<2, 4, 5, 8>>, so |-> <<2, 8, 10, 8>>, axis |-> "batch"]}
+  \cup {[s1 |-> <<1, 2, v, 2>>, so |-> <<1, 4, 2 * v, 2>>, axis |-> "dim_w"] : v \in {DimHi \div 2, DimHi \div 2 + 1}}
+
+TconvU ==
+       {TypeUConv(t) : t \in Types}
+  \cup GenericU("TRANSPOSE_CONV")
+  \cup {[b |-> v, axis |-> "batch"] : v \in {1, 2}}
+  \cup {[sh |-> a, sw |-> b2, pad |-> p, axis |-> "stride"] : a \in {1, 2, 3}, b2 \in {1, 2, 3}, p \in {"SAME", "VALID"}}
+  \cup {[sh |-> 1, sw |-> 2, h |-> hh, kh |-> k, axis |-> "stride_2x1"] : hh \in {1, 2}, k \in {1, 2}}
+  \cup {[kh |-> k, kw |-> k, pad |-> "VALID", axis |-> "kernel_valid"] : k \in {1, 2, 3, 4}}
+  \cup {[kh |-> v, h |-> 2, w |-> 2, axis |-> "kernel_h"] : v \in Points(DilHLo["TRANSPOSE_CONV"], DilHHi["TRANSPOSE_CONV"])}
+  \cup {[kh |-> a, kw |-> b2, h |-> 2, w |-> 2, c |-> 2, oc |-> 2, axis |-> "kernel_product"] :
+            a \in {DilHHi["TRANSPOSE_CONV"] - 1, DilHHi["TRANSPOSE_CONV"]},
+            b2 \in {DilHHi["TRANSPOSE_CONV"], DilHHi["TRANSPOSE_CONV"] + 1}}
+  \cup {[odh |-> 1, pad |-> p, axis |-> "ofm_differs"] : p \in {"SAME", "VALID"}}
+  \cup {[wt |-> "int16", axis |-> "weights_16bit"], [wconst |-> FALSE, axis |-> "weights_dynamic"],
+        [brank |-> 2, axis |-> "bias_2d"], [bt |-> "int16", axis |-> "bias_type"], [bt |-> "none", axis |-> "no_bias"],
+        [paq |-> "weights", axis |-> "per_axis_weights"]}
+  \cup {[dt |-> "int16", odt |-> "int16", bt |-> "int64", bbits |-> v, axis |-> "bias_bits"] :
+            v \in {BiasBits["TRANSPOSE_CONV"] - 1, BiasBits["TRANSPOSE_CONV"], BiasBits["TRANSPOSE_CONV"] + 1}}
+  \cup ForceU
+
+ArgMaxU ==
+       {[dt |-> t, hasq |-> t # "float32", axis |-> "dtype"] : t \in Types}
+  \cup {[odt |-> t, axis |-> "out_type"] : t \in {"int32", "int64"}}
+  \cup {[hasq |-> FALSE, axis |-> "noquant"]}
+  \cup {[ax |-> a, axis |-> "argmax_axis"] : a \in {-1, 1, 2, 3}}
+  \cup {[s1 |-> <<1, 2, 2, v>>, axis |-> "depth"] : v \in Points(1, ArgMaxDepth)}
+  \cup {[s1 |-> s, ax |-> Len(s) - 1, axis |-> "rank"] : s \in RankShapes \ {<<8>>}}
+  \cup {[s1 |-> <<2, 6, 7, 8>>, axis |-> "batch"]}
+
+Updates0(op) ==
     CASE op = "CONV_2D" -> ConvU
       [] op \in {"SQUEEZE", "EXPAND_DIMS"} -> MemOnlyU(op)
       [] op = "MEAN" -> MeanU
@@ -325,13 +656,28 @@ Updates(op) ==
       [] op \in ELT -> EltU(op)
       [] op = "FULLY_CONNECTED" -> FcU
       [] op = "RESHAPE" -> ReshapeU
+      [] op \in UNARY -> UnaryU(op)
+      [] op \in BIN2 -> BinU(op)
+      [] op = "CONCATENATION" -> ConcatU
+      [] op = "SPLIT" -> SplitU
+      [] op = "SPLIT_V" -> SplitVU
+      [] op = "SLICE" -> SliceU
+      [] op = "STRIDED_SLICE" -> SsU
+      [] op = "TRANSPOSE" -> TransposeU
+      [] op = "PAD" -> PadU
+      [] op \in RESIZE -> ResizeU(op)
+      [] op = "TRANSPOSE_CONV" -> TconvU
+      [] op = "ARG_MAX" -> ArgMaxU
+\* every operator once more with the option that only changes the weight zero-point constraint: nothing else may move
+Updates(op) == Updates0(op) \cup NeutralU
 
 Single(op) == {Apply(Nom(op), u) : u \in Updates(op)} \cup {Nom(op)}
 Viol(op) == {u \in Updates(op) : Expect(Apply(Nom(op), u)) = "CPU"}
-\* pairs of simultaneous violations on disjoint parameters
+\* pairs of simultaneous violations on disjoint parameters (a constraint that only applies under a condition, e.g.
+\* "SAME padding: ...", can be lifted by the other member of the pair: such combinations are not pairs of violations)
 Pairs(op) ==
-    UNION {{[Apply(Apply(Nom(op), u1), u2) EXCEPT !.axis = u1.axis, !.axis2 = u2.axis] :
-               u2 \in {u \in Viol(op) : DOMAIN u \cap DOMAIN u1 = {"axis"}}} : u1 \in Viol(op)}
+    {p \in UNION {{[Apply(Apply(Nom(op), u1), u2) EXCEPT !.axis = u1.axis, !.axis2 = u2.axis] :
+                      u2 \in {u \in Viol(op) : DOMAIN u \cap DOMAIN u1 = {"axis"}}} : u1 \in Viol(op)} : Expect(p) = "CPU"}
 
 Cases == UNION {Single(op) : op \in Covered} \cup (IF WithPairs THEN UNION {Pairs(op) : op \in Covered} ELSE {})
 
